@@ -3,8 +3,8 @@ CONSTANTS
   Class = "stream"
   Ideal = FALSE
   KSet = {"n", "orph"}
-  NW <- W11
-  NR <- W11
+  NW <- W02
+  NR <- W20
   NC <- W11
   WMax = 3
   CMax = 2
